@@ -200,8 +200,88 @@ func sortedJSON(b []byte) string {
 	return string(out)
 }
 
+// targets whose fields are ordered maps with non-scalar values (outside the translated family: compared with
+// the plain-map version of the same struct, which the family and the model cover)
+type c16om struct {
+	Items *ordered.Map[string, T1]       `yaml:"items"`
+	Lists *ordered.Map[string, []string] `yaml:"lists"`
+	Ptrs  *ordered.Map[string, *T2]      `yaml:"ptrs"`
+	Rest  *ordered.Map[string, any]      `yaml:",inline"`
+}
+type c16pm struct {
+	Items map[string]T1       `yaml:"items"`
+	Lists map[string][]string `yaml:"lists"`
+	Ptrs  map[string]*T2      `yaml:"ptrs"`
+	Rest  map[string]any      `yaml:",inline"`
+}
+
+func c16orderedTargets(rng *sx.Rng, n int) {
+	for i := 0; i < n; i++ {
+		sub := func(fields map[string]func() *dv) *dv {
+			m := dMap()
+			for _, k := range sortedKeys(fields) {
+				if rng.Chance(55) {
+					m.set(k, fields[k]())
+				}
+			}
+			return m
+		}
+		t1 := func() *dv {
+			return sub(map[string]func() *dv{"a": func() *dv { return dStr(sx.Pick(rng, []string{"x", "y", ""})) }, "b": func() *dv { return dInt(int64(rng.Intn(5))) },
+				"c": func() *dv { return dBool(rng.Bool()) }, "d": func() *dv { return dFloat(1.5) }})
+		}
+		t2 := func() *dv {
+			return sub(map[string]func() *dv{"name": func() *dv { return dStr("n") }, "count": func() *dv { return dInt(int64(rng.Intn(9))) }, "flag": func() *dv { return dBool(true) }})
+		}
+		coll := func(el func() *dv) *dv {
+			m := dMap()
+			for k := rng.Intn(5); k > 0; k-- {
+				m.set(fmt.Sprintf("k%d", rng.Intn(8)), el())
+			}
+			return m
+		}
+		doc := dMap(dkv{"items", coll(t1)}, dkv{"lists", coll(func() *dv {
+			l := dList()
+			for k := rng.Intn(3); k > 0; k-- {
+				l.l = append(l.l, dStr(fmt.Sprint("v", rng.Intn(4))))
+			}
+			return l
+		})}, dkv{"ptrs", coll(t2)}, dkv{"extra1", dInt(1)})
+		text, form := renderDoc(doc, i)
+		a, derr := decodeText(text)
+		if derr != nil {
+			continue
+		}
+		short := sx.L(sx.A("ordered-map-fields"), sx.A(form), sx.A(text))
+		var om c16om
+		var pm c16pm
+		e1 := ordered.Unmarshal(a, &om)
+		e2 := ordered.Unmarshal(a, &pm)
+		if (e1 == nil) != (e2 == nil) {
+			oracleFail("C16", "ordered-target-error", short, fmt.Sprintf("ordered-map fields: %v; plain-map fields: %v", e1, e2))
+			continue
+		}
+		if e1 != nil {
+			continue
+		}
+		// same keys and values as the plain-map target, in document order
+		b1, _ := json.Marshal(map[string]any{"items": om.Items.ToMap(), "lists": om.Lists.ToMap(), "ptrs": om.Ptrs.ToMap(), "rest": om.Rest.ToMap()})
+		b2, _ := json.Marshal(map[string]any{"items": pm.Items, "lists": pm.Lists, "ptrs": pm.Ptrs, "rest": pm.Rest})
+		if sortedJSON(b1) != sortedJSON(b2) {
+			oracleFail("C16", "ordered-target-differs", short, fmt.Sprintf("decoded into ordered-map fields: %s\ndecoded into plain-map fields : %s", sortedJSON(b1), sortedJSON(b2)))
+			continue
+		}
+		stat("C16", "ordered-map-targets")
+	}
+}
+
 func init() {
 	props["C16"] = func(rng *sx.Rng, thorough bool) {
+		if thorough {
+			c16orderedTargets(rng, 5000)
+		} else {
+			c16orderedTargets(rng, 300)
+		}
 		n := 3000
 		if thorough {
 			n = 60000
